@@ -14,6 +14,10 @@ CHECKS = {
    technique="stateless schedule exploration (DFS over choice prefixes, iterative preemption bounding) of real threads on the real versioned zone under a cooperative threading shim with line-level scheduling points",
    text="Every interleaving (up to the stated preemption bound; every line of the writer-admission/commit/reader code and every blocking lock/event operation is a scheduling point) of 2-5 writer threads (commit, rollback, exception-in-with) and 0-2 reader threads is executed on the real dns.versioned.Zone / dns.btreezone.Zone; each complete execution is judged for mutual exclusion, FIFO admission (arrival = first acquisition of the version lock), absence of deadlock/lost wake-up, final state = serial application in admission order, and readers seeing exactly one committed prefix; no blocking while holding the lock.",
    note="Bounded threads and preemptions; a source line is the atomic step (CPython bytecode-level races inside one line are not modelled); the cooperative shim replaces dns.versioned.threading (a short free-running pass with real threading runs the same bodies)."),
+ "C17": dict(level="model_checking", ref="DESIGN.md §2 C17",
+   technique="complete explicit-state BFS over cache operation histories against a reference model, plus preemption-bounded schedule exploration of real threads with a brute-force linearizability check",
+   text="(a) The reachable state space of the real Cache and LRUCache under get/put(ttl)/flush/resize/clock-tick/statistics events on 3 keys with a virtual clock is explored to saturation; every transition is compared with a dict+recency-list reference (freshness, latest-value, LRU order and bound, hit/miss accounting, ring/dict consistency). (b) Every schedule within the preemption bound of 2-3 threads x 1-3 operations on colliding keys (lock-level for all program pairs from a 9-op menu, line-level inside every cache method for hand-picked colliding programs) is executed on the real caches; each call/return history must have a sequential explanation that also reproduces the final internal state.",
+   note="dns.resolver.time / dns.resolver.threading rebound to a virtual clock and a cooperative shim; 3 keys, TTL 0-2; a source line is the atomic step; bounded threads/ops/preemptions."),
 }
 ALL = ["C%02d" % i for i in range(1, 21)]
 m = {
